@@ -41,9 +41,9 @@ theorem inv_of_local (h : Inv p) (s : Eff (· = y) p.a e') (u : LocalUpd p.a e' 
             ∃ l', DirRel o' oR (fwd ++ em) bwd (g'.wlog i) r eof l')
     (hR : ¬ y ∈ dq → ∀ oS fwd bwd w l, DirRel oS o (hd ++ fwd) bwd w (p.ga.rlog i) (p.ga.eof i) l →
             ∃ l', DirRel oS o' fwd (bwd ++ em) w (g'.rlog i) (g'.eof i) l')
-    (hHalf : o.rxq = [] → o.buf = [] → o.recvdSince = 0 → o.senderAlive = true →
+    (hHalf : hd = [] → o.rxq = [] → o.buf = [] → o.recvdSince = 0 → o.senderAlive = true →
             o'.rxq = [] ∧ o'.buf = [] ∧ o'.recvdSince = 0 ∧ o'.senderAlive = true ∧ (∀ m ∈ em, ackOf m = none) ∧
-            g'.rlog i = p.ga.rlog i ∧ g'.eof i = p.ga.eof i)
+            g'.rlog i = p.ga.rlog i ∧ g'.eof i = p.ga.eof i ∧ (¬ y ∈ dq → o.rxOpen = true → o'.rxOpen = true))
     (hcap : o'.cap = o.cap ∧ o'.threshold = o.threshold)
     (hdq : ∀ x ∈ dq, x = y)
     (hg : ∀ k, k ≠ i → g'.wlog k = p.ga.wlog k ∧ g'.rlog k = p.ga.rlog k ∧ g'.eof k = p.ga.eof k) :
@@ -130,20 +130,20 @@ theorem inv_write {p : PS} (h : Inv p) (hd : Nat) (d : Bytes) :
     rcases appWrite_local p.a hd i o d hh h.runA.outClosed with ⟨hf, hres, u⟩ | ⟨hf, hd0, hres, u⟩ | ⟨hf, hd0, hc, hres, u⟩ | ⟨hf, hd0, hc, hres, u⟩
     · rw [hres]
       exact inv_of_local (ba' := p.ba) (hd := []) (fbaT := fl _ (pathBA p)) (g' := p.ga) h s u ho rfl rfl (by simp) (Or.inl rfl) rfl rfl (hS_of_eq rfl rfl rfl rfl)
-        (fun _ => hR_of_eq rfl rfl rfl rfl rfl rfl rfl rfl rfl rfl) (fun a b c d => ⟨a, b, c, d, by simp, by simp, by simp⟩) ⟨rfl, rfl⟩ (by simp)
+        (fun _ => hR_of_eq rfl rfl rfl rfl rfl rfl rfl rfl rfl rfl) (fun _ a b c d => ⟨a, b, c, d, by simp, by simp, by simp, fun _ hh => hh⟩) ⟨rfl, rfl⟩ (by simp)
         (fun _ _ => ⟨rfl, rfl, rfl⟩)
     · rw [hres]
       subst hd0
       exact inv_of_local (ba' := p.ba) (hd := []) (fbaT := fl _ (pathBA p)) (g' := p.ga.addW i []) h s u ho rfl rfl (by simp) (Or.inl rfl) rfl rfl (hS_of_eq rfl rfl (by simp) rfl)
-        (fun _ => hR_of_eq rfl rfl rfl rfl rfl rfl rfl rfl rfl rfl) (fun a b c d => ⟨a, b, c, d, by simp, by simp, by simp⟩) ⟨rfl, rfl⟩ (by simp)
+        (fun _ => hR_of_eq rfl rfl rfl rfl rfl rfl rfl rfl rfl rfl) (fun _ a b c d => ⟨a, b, c, d, by simp, by simp, by simp, fun _ hh => hh⟩) ⟨rfl, rfl⟩ (by simp)
         (fun k hk => addW_other _ _ _ _ hk)
     · rw [hres]
       exact inv_of_local (ba' := p.ba) (hd := []) (fbaT := fl _ (pathBA p)) (g' := p.ga) h s u ho rfl rfl (by simp) (Or.inl rfl) rfl rfl (hS_of_eq rfl rfl rfl rfl)
-        (fun _ => hR_of_eq rfl rfl rfl rfl rfl rfl rfl rfl rfl rfl) (fun a b c d => ⟨a, b, c, d, by simp, by simp, by simp⟩) ⟨rfl, rfl⟩ (by simp)
+        (fun _ => hR_of_eq rfl rfl rfl rfl rfl rfl rfl rfl rfl rfl) (fun _ a b c d => ⟨a, b, c, d, by simp, by simp, by simp, fun _ hh => hh⟩) ⟨rfl, rfl⟩ (by simp)
         (fun _ _ => ⟨rfl, rfl, rfl⟩)
     · rw [hres]
       refine inv_of_local (ba' := p.ba) (hd := []) (fbaT := fl _ (pathBA p)) (g' := p.ga.addW i d) h s u ho rfl rfl ?_ (Or.inl rfl) rfl rfl ?_
-        (fun _ => hR_of_eq rfl rfl rfl rfl rfl rfl rfl rfl rfl rfl) (fun a b c d => ⟨a, b, c, d, by simp, by simp, by simp⟩) ⟨rfl, rfl⟩ (by simp)
+        (fun _ => hR_of_eq rfl rfl rfl rfl rfl rfl rfl rfl rfl rfl) (fun _ a b c d => ⟨a, b, c, d, by simp, by simp, by simp, fun _ hh => hh⟩) ⟨rfl, rfl⟩ (by simp)
         (fun k hk => addW_other _ _ _ _ hk)
       · intro m hm; simp at hm; subst hm; exact ⟨rfl, rfl⟩
       · intro oR fwd bwd r eof l dr
@@ -200,27 +200,27 @@ theorem inv_read {p : PS} (h : Inv p) (hd n : Nat) :
         ⟨hb, hres, u⟩ | ⟨hb, f, rest, hq, hres, hcase⟩ | ⟨hb, hq, ha, hres, he⟩ | ⟨hb, hq, ha, hres, u⟩
       · rw [hres]
         refine inv_of_local (ba' := p.ba) (hd := []) (fbaT := fl _ (pathBA p)) (g' := p.ga.addR i (o.buf.take n)) h s u ho rfl rfl (by simp) (Or.inl rfl) rfl rfl (hS_of_eq rfl rfl (by simp) rfl)
-          ?_ (fun _ b _ _ => absurd b hb) ⟨rfl, rfl⟩ (by simp) (fun k hk => addR_other _ _ _ _ hk)
+          ?_ (fun _ _ b _ _ => absurd b hb) ⟨rfl, rfl⟩ (by simp) (fun k hk => addR_other _ _ _ _ hk)
         intro _ oS fwd bwd w l dr
         rw [addR_rlog_self, List.append_nil]
         exact ⟨_, dr.readBuf n hb⟩
       · rw [hres]
         rcases hcase with ⟨ht, u⟩ | ⟨ht, u⟩
         · refine inv_of_local (ba' := p.ba) (hd := []) (fbaT := fl _ (pathBA p)) (g' := p.ga.addR i (f.take n)) h s u ho rfl rfl ?_ (Or.inl rfl) rfl rfl (hS_of_eq rfl rfl (by simp) rfl)
-            ?_ (fun a _ _ _ => by rw [hq] at a; cases a) ⟨rfl, rfl⟩ (by simp) (fun k hk => addR_other _ _ _ _ hk)
+            ?_ (fun _ a _ _ _ => by rw [hq] at a; cases a) ⟨rfl, rfl⟩ (by simp) (fun k hk => addR_other _ _ _ _ hk)
           · intro m hm; simp at hm; subst hm; exact ⟨rfl, rfl⟩
           · intro _ oS fwd bwd w l dr
             rw [addR_rlog_self]
             exact ⟨_, (dr.readFrame o.fid n f rest hb hq).1 ht⟩
         · refine inv_of_local (ba' := p.ba) (hd := []) (fbaT := fl _ (pathBA p)) (g' := p.ga.addR i (f.take n)) h s u ho rfl rfl (by simp) (Or.inl rfl) rfl rfl (hS_of_eq rfl rfl (by simp) rfl)
-            ?_ (fun a _ _ _ => by rw [hq] at a; cases a) ⟨rfl, rfl⟩ (by simp) (fun k hk => addR_other _ _ _ _ hk)
+            ?_ (fun _ a _ _ _ => by rw [hq] at a; cases a) ⟨rfl, rfl⟩ (by simp) (fun k hk => addR_other _ _ _ _ hk)
           intro _ oS fwd bwd w l dr
           rw [addR_rlog_self, List.append_nil]
           exact ⟨_, (dr.readFrame o.fid n f rest hb hq).2 ht⟩
       · rw [hres, he]; exact h
       · rw [hres]
         refine inv_of_local (ba' := p.ba) (hd := []) (fbaT := fl _ (pathBA p)) (g' := p.ga.setEof i) h s u ho rfl rfl (by simp) (Or.inl rfl) rfl rfl (hS_of_eq rfl rfl (by simp) rfl)
-          ?_ (fun _ _ _ d => by rw [ha] at d; cases d) ⟨rfl, rfl⟩ (by simp) (fun k hk => setEof_other _ _ _ hk)
+          ?_ (fun _ _ _ _ d => by rw [ha] at d; cases d) ⟨rfl, rfl⟩ (by simp) (fun k hk => setEof_other _ _ _ hk)
         intro _ oS fwd bwd w l dr
         rw [setEof_self, List.append_nil]
         exact ⟨_, dr.readEof n hb hq ha⟩
@@ -234,7 +234,7 @@ theorem inv_read {p : PS} (h : Inv p) (hd n : Nat) :
         have := dr.inv.hne_rxq
         rw [dr.hrxq] at this
         exact this
-      · intro a _ _ _
+      · intro _ a _ _ _
         exfalso; apply hne; rw [a]; intro d hd; cases hd
 
 /-- `poll_shutdown`. -/
@@ -251,7 +251,7 @@ theorem inv_shutdown {p : PS} (h : Inv p) (hd : Nat) : Inv { p with a := (appShu
     rcases appShutdown_local p.a hd i o hh h.runA.outClosed with ⟨hf, hres⟩ | ⟨hf, u⟩
     · rw [hres]; exact h
     · refine inv_of_local (ba' := p.ba) (hd := []) (fbaT := fl _ (pathBA p)) (g' := p.ga) h s u ho rfl rfl ?_ (Or.inl rfl) rfl rfl ?_
-        (fun _ => hR_of_eq rfl rfl rfl rfl rfl rfl rfl rfl rfl rfl) (fun a b c d => ⟨a, b, c, d, by simp, by simp, by simp⟩) ⟨rfl, rfl⟩ (by simp)
+        (fun _ => hR_of_eq rfl rfl rfl rfl rfl rfl rfl rfl rfl rfl) (fun _ a b c d => ⟨a, b, c, d, by simp, by simp, by simp, fun _ hh => hh⟩) ⟨rfl, rfl⟩ (by simp)
         (fun _ _ => ⟨rfl, rfl, rfl⟩)
       · intro m hm; simp at hm; subst hm; exact ⟨rfl, rfl⟩
       · intro oR fwd bwd r eof l dr
@@ -273,7 +273,7 @@ theorem inv_dropStream {p : PS} (h : Inv p) (hd : Nat) (dl : List Nat) :
     have u := appDropStream_local p.a hd i o hh h.runA.dead
     -- after the drop the notification is queued, so the receiving role is not claimed any more
     refine inv_of_local (ba' := p.ba) (hd := []) (fbaT := fl _ (pathBA p)) (g' := { p.ga with dropped := dl }) h s u ho rfl rfl (by simp) (Or.inl rfl) rfl rfl (hS_of_eq rfl rfl rfl rfl)
-      (fun hn => absurd (by simp) hn) (fun a b c d => ⟨rfl, b, c, d, by simp, rfl, rfl⟩) ⟨rfl, rfl⟩ (by simp)
+      (fun hn => absurd (by simp) hn) (fun _ a b c d => ⟨rfl, b, c, d, by simp, rfl, rfl, fun hh _ => absurd (by simp) hh⟩) ⟨rfl, rfl⟩ (by simp)
       (fun _ _ => ⟨rfl, rfl, rfl⟩)
 
 end Penguin.Pair
